@@ -17,7 +17,7 @@ PID = "C15"
 CHECKS = ["C15_SaveLoad", "C15_SaveDir", "C15_DirVsArchive", "C15_Package", "C15_PackageList", "C15_IgnoredAbsent", "C15_InvalidNotPackaged"]
 PLAN = {   # family -> (cases sampled (0 = all), concretisations per case)
     "quick":    {"roundtrip": (2400, 1), "invalid": (0, 3), "ignore": (0, 3), "pkglist": (0, 1)},
-    "thorough": {"roundtrip": (0, 2), "invalid": (0, 5), "ignore": (0, 4), "pkglist": (0, 3)},
+    "thorough": {"roundtrip": (0, 1), "invalid": (0, 5), "ignore": (0, 4), "pkglist": (0, 3)},
 }
 
 
